@@ -77,16 +77,23 @@ def make_cases(ctx, n):
                               sync=bytes(range(16)), level=rng.choice([None, 9]), use_raw=False, sizes=[K.record_size(rep, r) for r in recs]))
     # schemas whose named types were parsed SEPARATELY (shared named_schemas dict) and are referred to by name from a top-level
     # union / array / map / record: the file must still be self-describing
-    for top in (["null", "pc.Item", "pc.Tag"], ["null", {"type": "record", "name": "pc.Seg", "fields": [{"name": "a", "type": "pc.Item"}, {"name": "b", "type": "pc.Tag"}]}, "string"],
-                {"type": "array", "items": "pc.Item"}, {"type": "map", "values": ["pc.Tag", "pc.Item"]},
-                {"type": "record", "name": "pc.Box", "fields": [{"name": "i", "type": "pc.Item"}, {"name": "t", "type": ["null", "pc.Tag"], "default": None}]}):
+    item = {"n": 5, "t": "Y"}
+    for top, recs in (
+            (["null", {"type": "record", "name": "pc.Seg", "fields": [{"name": "a", "type": "pc.Item"}, {"name": "b", "type": "pc.Tag"}]}, "string"],
+             [{"a": item, "b": "X"}, None, "s"]),
+            ({"type": "record", "name": "pc.Box", "fields": [{"name": "i", "type": "pc.Item"}, {"name": "t", "type": ["null", "pc.Tag"], "default": None}]},
+             [{"i": item, "t": "X"}, {"i": item}]),
+            # the FIRST use of a separately parsed type sits inside map values / array items / a nested union
+            ({"type": "record", "name": "pc.MBox", "fields": [{"name": "m", "type": {"type": "map", "values": "pc.Item"}},
+                                                             {"name": "a", "type": {"type": "array", "items": ["null", "pc.Tag"]}}]},
+             [{"m": {"k": item, "j": item}, "a": ["X", None]}, {"m": {}, "a": []}]),
+            ({"type": "record", "name": "pc.ABox", "fields": [{"name": "a", "type": {"type": "array", "items": {"type": "map", "values": ["pc.Tag", "pc.Item"]}}},
+                                                             {"name": "again", "type": "pc.Item"}]},
+             [{"a": [{"x": "Y", "y": item}], "again": item}])):
         named = {}
         fastavro.parse_schema({"type": "enum", "name": "pc.Tag", "symbols": ["X", "Y"]}, named)
         fastavro.parse_schema({"type": "record", "name": "pc.Item", "fields": [{"name": "n", "type": "long"}, {"name": "t", "type": "pc.Tag"}]}, named)
         parsed = fastavro.parse_schema(top, named)
-        item = {"n": 5, "t": "Y"}
-        recs = ([{"a": item, "b": "X"}, None, "s"] if isinstance(top, list) and isinstance(top[1], dict) else [item, "X", None] if isinstance(top, list) else [[item, item], []] if top.get("type") == "array" else
-                [{"a": "Y", "b": item}, {}] if top.get("type") == "map" else [{"i": item, "t": "X"}, {"i": item}])
         sizes = [K.record_size(parsed, r) for r in recs]
         if all(x is not None for x in sizes):
             cases.append(dict(raw=top, parsed=parsed, named=named, records=recs, codec=rng.choice(K.CODECS), si=rng.choice([1, 16000]), meta=None,
